@@ -54,6 +54,7 @@ type transUnit struct {
 	Vars  []string // package-level variables with initialisers to translate (in order, before Funcs that use them)
 	// interfaces and types of other packages (only for units that use them)
 	TypeParams  string               // binders added to every definition, e.g. "{M S : Type} [MapI M] [StoreI S]"
+	TypeArgs    string               // named arguments for calls of the auxiliary loop functions, e.g. "(M := M) (S := S)" (a loop that does not mention the type variables could not infer them)
 	StructArgs  string               // arguments of the unit's structures, e.g. "M S"
 	Ifaces      map[string]ifaceSpec // "mapping.IndexMapping" -> class
 	ExternTypes map[string]string    // "stat.SummaryStatistics" -> Lean type
@@ -120,7 +121,7 @@ var transUnits = []transUnit{
 }
 
 var sketchUnit = transUnit{Dir: "ddsketch", File: "CodeSketch", NS: "DDS.Gen.Sketch", Mode: "f64",
-	TypeParams: "{M S : Type} [MapI M] [StoreI S] [Inhabited M] [Inhabited S]", StructArgs: "M S",
+	TypeParams: "{M S : Type} [MapI M] [StoreI S] [Inhabited M] [Inhabited S]", StructArgs: "M S", TypeArgs: "(M := M) (S := S)",
 	Imports: []string{"DDS.Model.GoIface", "DDS.Generated.CodeStat"},
 	Ifaces: map[string]ifaceSpec{
 		"mapping.IndexMapping": {TyVar: "M", Class: "MapI", Mutating: map[string]bool{}},
@@ -2302,6 +2303,9 @@ func (t *tr) rangeStmt(x *ast.RangeStmt, sc *sctx, k string) string {
 		stTypes = append(stTypes, t.leanType(v.Type()))
 	}
 	rec := name
+	if t.unit.TypeArgs != "" {
+		rec += " " + t.unit.TypeArgs
+	}
 	var sig strings.Builder
 	sig.WriteString("def " + name)
 	if t.unit.Mode == "mops" {
@@ -2446,6 +2450,9 @@ func (t *tr) forStmt(x *ast.ForStmt, sc *sctx, k string) string {
 	stTuple := tuple(stNames)
 	stType := strings.Join(stTypes, " × ")
 	rec := name
+	if t.unit.TypeArgs != "" {
+		rec += " " + t.unit.TypeArgs
+	}
 	for _, v := range ro {
 		rec += " " + lname(v.Name())
 	}
